@@ -129,6 +129,12 @@ def spectrum_case(ctx, rng, M):
                 Hw += FermionOperator(((p_, 1), (r_, 0), (q_, 1), (s_, 0)), -c)
                 if q_ == r_:
                     Hw += FermionOperator(((p_, 1), (s_, 0)), c)
+            elif len(t) == 2 and [d for _, d in t] == [1, 0] and rng.random() < 0.5:
+                # one-body term with the annihilator first: a+_p a_q = delta_pq - a_q a+_p (normal ordering creates a constant)
+                (p_, _), (q_, _) = t
+                Hw += FermionOperator(((q_, 0), (p_, 1)), -c)
+                if p_ == q_:
+                    Hw += FermionOperator((), c)
             else:
                 Hw += FermionOperator(t, c)
         if np.abs(fock.fermion_matrix(Hw, n) - Hm).max() < 1e-12:
